@@ -15,6 +15,7 @@ import json, os, re, sys
 
 def main():
     hid, repo, out = sys.argv[1], sys.argv[2], sys.argv[3]
+    mutdir = sys.argv[4] if len(sys.argv) > 4 and sys.argv[4] else None
     V = os.path.dirname(os.path.abspath(__file__))
     spec_path = os.path.join(V, "harness", hid, "overlay.json")
     spec = {}
@@ -36,11 +37,14 @@ def main():
     gen = {}  # repo-rel file -> current text
     def load(rel):
         if rel not in gen:
-            gen[rel] = open(os.path.join(repo, rel)).read()
+            src = os.path.join(repo, rel)
+            if mutdir and os.path.exists(os.path.join(mutdir, rel)):
+                src = os.path.join(mutdir, rel)
+            gen[rel] = open(src).read()
         return gen[rel]
     for rw in spec.get("rewrite", []):
         rel = rw["file"]
-        if not os.path.exists(os.path.join(repo, rel)):
+        if not os.path.exists(os.path.join(repo, rel)) and not (mutdir and os.path.exists(os.path.join(mutdir, rel))):
             hooked["noop_rewrites"].append(rel + " (missing)")
             continue
         txt = load(rel)
@@ -68,6 +72,13 @@ def main():
             sys.exit(1)
         gen[rel] = txt2
         hooked["rewritten"].append(rel + " (subst)")
+    if mutdir:
+        for dp, _, fs in os.walk(mutdir):
+            for f in fs:
+                rel = os.path.relpath(os.path.join(dp, f), mutdir)
+                if rel not in gen:
+                    replace[os.path.join(repo, rel)] = os.path.join(dp, f)
+        hooked["mutant"] = True
     for rel, txt in gen.items():
         p = os.path.join(work, "gen", rel)
         os.makedirs(os.path.dirname(p), exist_ok=True)
